@@ -39,10 +39,10 @@ ASSUMPTIONS = [
     'the fault/schedule axis is narrow (fd budget, prune cadence, cut-off point); the wide axis is the seeded workload',
 ]
 COMPONENTS = {
-    'real': ['DemultiplexingStrategyLoader.demultiplex', 'all registered strategy classes', 'BarcodeParser', 'FastqIterator', 'FastqHandle', 'HandleLimiter', 'gzip'],
+    'real': ['demux.py __main__ (argument handling, library/lane detection, -n budget across lanes, --norejects, --scsepf, -fh, log file) re-executed with runpy in a forked child for ~1% (quick) / 4% (thorough) of the cases', 'DemultiplexingStrategyLoader.demultiplex', 'all registered strategy classes', 'BarcodeParser', 'FastqIterator', 'FastqHandle', 'HandleLimiter', 'gzip'],
     'stub': ['recording proxies around targetFile / rejectHandle / FastqIterator.__next__ (delegating)', 'SimFS fd budget + SimClock behind HandleLimiter in per-cell mode'],
 }
-REQUIRED_PROBES = ['accepted_and_rejected_in_one_run', 'cutoff_hit', 'per_cell_output', 'fd_budget_fault_fired', 'no_reject_handle', 'high_phred_in_umi', 'unknown_index']
+REQUIRED_PROBES = ['cli_run', 'cli_multi_lane', 'cli_cutoff_hit', 'accepted_and_rejected_in_one_run', 'cutoff_hit', 'per_cell_output', 'fd_budget_fault_fired', 'no_reject_handle', 'high_phred_in_umi', 'unknown_index']
 
 _LOADERS = {}
 _INDEXES = None
@@ -50,7 +50,7 @@ _INDEXES = None
 
 def plan(tier):
     if tier == 'quick':
-        return {'runs': 16000, 'budget_s': 45, 'chunk': 40, 'per_run_timeout': 300}
+        return {'runs': 12000, 'budget_s': 45, 'chunk': 40, 'per_run_timeout': 300}
     return {'runs': 120000, 'budget_s': 560, 'chunk': 40, 'per_run_timeout': 600}
 
 
@@ -206,7 +206,14 @@ def generate(seed, tier):
         'fd_budget': weighted(fs, [(None, 3), (fs.randint(1, 8), 4)]) if percell else None,
         'clock': weighted(st.schedule, [('monotone', 3), ('ties', 1), ('frozen', 1), ('backjump', 1)]),
     }
-    return {'params': params, 'workload': reads}
+    cli = None
+    if st.schedule.random() < (0.012 if tier == 'quick' else 0.04) and n > 0:
+        # the same library through the real command line (demux.py __main__ via runpy in a forked child): argument wiring, lanes, -n across lanes
+        nl = st.schedule.choice([1, 2, 2, 3])
+        cuts = sorted(st.schedule.sample(range(1, n), min(nl - 1, max(0, n - 1)))) if n > 1 else []
+        cli = {'lane_cuts': cuts, 'n': st.schedule.choice([None, None, 1, max(1, n // 2), n, n + 3]), 'norejects': st.schedule.random() < 0.3,
+               'scsepf': st.schedule.random() < 0.3, 'fh': st.schedule.choice([1, 2, 5, 500])}
+    return {'params': params, 'workload': reads, 'cli': cli}
 
 
 _ID_TAG = re.compile(r'(?:^|;)CX:(-?\d+)')
@@ -483,6 +490,147 @@ def _check(case, run, with_rejects, viol, probe):
     return acc_ids
 
 
+def _cli_child(d, argv, wfd):
+    import json
+    import runpy
+    import sys
+    os.chdir(d)
+    dn = os.open(os.devnull, os.O_WRONLY)
+    os.dup2(dn, 1)
+    os.dup2(dn, 2)
+    sys.stdout = open(os.devnull, 'w')
+    sys.stderr = open(os.devnull, 'w')
+    sys.argv = argv
+    res = {'exception': None}
+    try:
+        runpy.run_module('singlecellmultiomics.modularDemultiplexer.demux', run_name='__main__')
+    except SystemExit as e:
+        res['exception'] = f'SystemExit({e.code})' if e.code else None
+    except BaseException as e:
+        res['exception'] = f'{type(e).__name__}: {e}'[:300]
+    os.write(wfd, json.dumps(res).encode())
+    os._exit(0)
+
+
+def _cli_layer(case, d, log, viol, probe):
+    import json
+    p = case['params']
+    c = case['cli']
+    reads = case['workload']
+    n = len(reads)
+    nm = 2 if p['paired'] else 1
+    bounds = [0] + list(c['lane_cuts']) + [n]
+    files = []
+    for li in range(len(bounds) - 1):
+        for r in range(nm):
+            path = os.path.join(d, f'LIBX_L00{li + 1}_R{r + 1}_001.fastq.gz')
+            with gzip.open(path, 'wt', compresslevel=1) as f:
+                for rd in reads[bounds[li]:bounds[li + 1]]:
+                    f.write(f"{rd['h'][r]}\n{rd['s'][r]}\n+\n{rd['q'][r]}\n")
+            files.append(path)
+    out = os.path.join(d, 'cli_out')
+    argv = ['demux.py'] + files + ['-o', out, '--y', '-use', p['strategy'], '-hd', str(p['hd']), '-fh', str(c['fh'])]
+    if nm == 1:
+        argv.append('--se')
+    if c['n'] is not None:
+        argv += ['-n', str(c['n'])]
+    if c['norejects']:
+        argv.append('--norejects')
+    if c['scsepf']:
+        argv.append('--scsepf')
+    rfd, wfd = os.pipe()
+    pid = os.fork()
+    if pid == 0:
+        os.close(rfd)
+        try:
+            _cli_child(d, argv, wfd)
+        finally:
+            os._exit(97)
+    os.close(wfd)
+    data = b''
+    while True:
+        b = os.read(rfd, 65536)
+        if not b:
+            break
+        data += b
+    os.close(rfd)
+    os.waitpid(pid, 0)
+    res = json.loads(data.decode()) if data else {'exception': 'child died without a result'}
+    probe('cli_run')
+    if len(bounds) > 2:
+        probe('cli_multi_lane')
+    ctx = {'strategy': p['strategy'], 'mode': 'cli', 'argv': [a if not a.startswith(d) else os.path.basename(a) for a in argv[1:]]}
+
+    def V(cls, sig, **detail):
+        detail.update(ctx)
+        viol.append({'property': PROPERTY, 'class': cls, 'signature': sig, 'detail': detail})
+
+    log.add('cli', ctx['argv'], res.get('exception'))
+    if res.get('exception'):
+        V('demultiplex-raised', 'cli/' + res['exception'].split(':')[0], error=res['exception'])
+        return
+    lib_dir = os.path.join(out, 'LIBX')
+    cutoff = n if c['n'] is None else min(n, c['n'])
+    if c['n'] is not None and c['n'] < n:
+        probe('cli_cutoff_hit')
+    acc, rej = [], []
+    corrupt = False
+
+    def load(path):
+        nonlocal corrupt
+        try:
+            with open(path, 'rb') as f:
+                raw = f.read()
+            recs = _parse_fastq(gzip.decompress(raw).decode() if raw else '')
+        except Exception as e:
+            recs = None
+        if recs is None:
+            corrupt = True
+            V('corrupt-output', 'cli/' + os.path.basename(path).split('.')[0][:20])
+        return recs or []
+
+    if not os.path.isdir(lib_dir):
+        V('pair-lost', 'cli/no-output-directory', n=n)
+        return
+    names = sorted(os.listdir(lib_dir))
+    for kind, dst in (('demultiplexed', acc), ('rejects', rej)):
+        r1s = [x for x in names if x.startswith(kind) and x.endswith('R1.fastq.gz')]
+        for f1 in r1s:
+            a = load(os.path.join(lib_dir, f1))
+            ids1 = [_identity(h) for h, _, _ in a]
+            if nm == 2:
+                f2 = f1[:-len('R1.fastq.gz')] + 'R2.fastq.gz'
+                b = load(os.path.join(lib_dir, f2)) if f2 in names else []
+                if ids1 != [_identity(h) for h, _, _ in b]:
+                    V('mate-desync', f'cli/{kind}-files', file=f1, n_r1=len(a), n_r2=len(b))
+            if ids1 != sorted(ids1):
+                V('order-changed', 'cli/' + kind, file=f1)
+            dst.extend(ids1)
+    log.add('cli-out', len(acc), len(rej))
+    if corrupt:
+        return
+    if set(acc) & set(rej):
+        V('pair-duplicated', 'cli/both-sinks', reads=sorted(set(acc) & set(rej))[:5])
+    got = sorted(acc + rej) if not c['norejects'] else None
+    if got is not None and got != list(range(cutoff)):
+        lost = sorted(set(range(cutoff)) - set(got))
+        extra = sorted(set(got) - set(range(cutoff)))
+        cls = 'pair-lost' if lost else ('pair-beyond-cutoff' if extra else 'pair-duplicated')
+        V(cls, 'cli/files', lost=lost[:5], beyond_cutoff=extra[:5], n_got=len(got), cutoff=cutoff)
+    if c['norejects'] and (len(acc) != len(set(acc)) or any(i >= cutoff for i in acc)):
+        V('pair-beyond-cutoff' if any(i >= cutoff for i in acc) else 'pair-duplicated', 'cli/norejects', cutoff=cutoff)
+    try:
+        logt = open(os.path.join(lib_dir, 'demultiplexing.log')).read()
+    except OSError:
+        logt = ''
+    m = re.findall(r'^done, processed:\t(\d+) reads', logt, re.M)
+    if not m or int(m[-1]) != cutoff:
+        V('counter-mismatch', 'cli/log-processed', log_tail=logt[-200:], cutoff=cutoff)
+    ys = sum(int(x) for x in re.findall(r'^%s\t(\d+)$' % re.escape(p['strategy']), logt, re.M))
+    if ys != len(acc):
+        V('counter-mismatch', 'cli/log-yield', yields_in_log=ys, demultiplexed_records=len(acc))
+
+
 def execute(case):
     log = EventLog(case.get('run_seed'))
     p = case['params']
@@ -518,6 +666,8 @@ def execute(case):
                 viol.append({'property': PROPERTY, 'class': 'rejects-off-differs', 'signature': 'demultiplexed-output',
                              'detail': {'strategy': p['strategy'], 'n_off': len(acc), 'n_on': len(acc2)}})
             log.add('relational', log2.digest())
+        if case.get('cli'):
+            _cli_layer(case, d, log, viol, probe)
     nontrivial = probes.get('accepted_and_rejected_in_one_run', 0) > 0
     return {'violations': viol, 'digest': log.digest(), 'probes': probes, 'faults': faults, 'steps': log.n,
             'nontrivial': nontrivial, 'sig': log.digest()}
